@@ -45,6 +45,12 @@ def interpret(ops, touched):
         defaults[i] = tag
     handlers = {j: (lambda t: (lambda req: t))(("h", j)) for j in range(3)}
 
+    def failing(req):
+        # a handler that fails with an exception of its own (a dict-backed handler missing an entry): the failure is
+        # the handler's answer - the request must not be passed on to another handler
+        raise KeyError("h2")
+    handlers[2] = failing
+
     base_obj = None
     if touched:
         base_obj = runtime.current_runtime()
@@ -65,7 +71,7 @@ def interpret(ops, touched):
     def expect(ti):
         o = cur_over()
         if ti in o:
-            return o[ti]
+            return ("raised", "KeyError", "'h2'") if o[ti] == ("h", 2) else o[ti]
         if ti in defaults:
             had = cur_had()
             if ti in redefaulted and (had is None or ti in had):
